@@ -35,6 +35,14 @@ func TestC05_RelistDiffOrder(t *testing.T) {
 		for _, k := range keys {
 			a.put(k[0], k[1], nil)
 		}
+		// a second, wide key set: rounds that lose dozens of changes at once give the relist a diff of
+		// several dozen events (still below one event buffer), with its Deletes at the end
+		var wide [][2]string
+		for i := 0; i < 64; i++ {
+			wide = append(wide, [2]string{"w", fmt.Sprintf("k%02d", i)})
+			a.put("w", fmt.Sprintf("k%02d", i), nil)
+		}
+		bigDiffs := 0
 		before, _ := libGoroutines()
 		ctx, cancel := context.WithCancel(context.Background())
 		defer cancel()
@@ -140,6 +148,41 @@ func TestC05_RelistDiffOrder(t *testing.T) {
 		}
 		rounds := rapid.IntRange(3, 10).Draw(t, "rounds")
 		for r := 0; r < rounds; r++ {
+			if rapid.IntRange(0, 2).Draw(t, "bigDiff") == 0 {
+				// the watch loses n changes (updates and deletes) of distinct wide keys; the relist repairs
+				// them in one diff; right behind it the watch delivers newer changes of some of them
+				n := rapid.IntRange(25, 60).Draw(t, "lost")
+				perm := rapid.Permutation(wide).Draw(t, "lostKeys")[:n]
+				a.mu.Lock()
+				a.dropNext = n
+				a.mu.Unlock()
+				lost := 0
+				for _, k := range perm {
+					if a.has(k[0], k[1]) && rapid.IntRange(0, 2).Draw(t, "lostDelete") == 0 {
+						a.del(k[0], k[1])
+					} else {
+						a.put(k[0], k[1], map[string]string{"x": "1"})
+					}
+					lost++
+				}
+				a.mu.Lock()
+				a.dropNext = 0
+				a.mu.Unlock()
+				req := a.awaitListWedge()
+				if req == nil {
+					fail("WEDGE: round %d: no List call", r)
+				}
+				req.release(a, false)
+				again := rapid.IntRange(1, 6).Draw(t, "again")
+				for i := 0; i < again; i++ {
+					k := perm[rapid.IntRange(0, n-1).Draw(t, "againKey")]
+					a.put(k[0], k[1], map[string]string{"x": "2"})
+				}
+				h("round %d: %d changes of distinct keys lost by the watch, relist released, %d of those keys changed again at once", r, lost, again)
+				bigDiffs++
+				settle(fmt.Sprintf("round %d (relist diff of %d events)", r, lost))
+				continue
+			}
 			k := rapid.SampledFrom(keys).Draw(t, "k")
 			a.mu.Lock()
 			a.dropNext = 1
@@ -170,6 +213,6 @@ func TestC05_RelistDiffOrder(t *testing.T) {
 		}
 		statCase("C05", hashString("relistorder;"+strings.Join(hist, ";")), true, func() interface{} {
 			return map[string]interface{}{"mode": "relist diff immediately followed by a watch event for the same object", "history": hist}
-		}, "relist_diff_order")
+		}, "relist_diff_order", fmt.Sprintf("relist_diffs_of_25_to_60_events=%d", min(bigDiffs, 3)))
 	})
 }
